@@ -298,20 +298,26 @@ func (x *explorer) verify(m any, model []int, hist []int, where string) {
 				x.fail(fmt.Sprintf("GetExtension/%s/%s/message-not-Equal-to-value-set%s", s.rt, e.short, at), hist, map[string]any{"got": short(canon(v)), "want": short(canon(want))})
 			}
 		} else {
-			// unset: the V1 APIs report ErrMissingExtension (no defaults are declared), V2 returns the default
-			switch s.cls {
-			case cGogo:
-				if v != nil || !errors.Is(err, gogoproto.ErrMissingExtension) {
-					x.fail(fmt.Sprintf("GetExtension/%s/%s/unset-extension-not-reported-missing%s", s.rt, e.short, at), hist, map[string]any{"got": short(canon(v)), "err": errStr(err)})
-				}
-			case cV1:
-				if v != nil || !errors.Is(err, golangproto.ErrMissingExtension) {
-					x.fail(fmt.Sprintf("GetExtension/%s/%s/unset-extension-not-reported-missing%s", s.rt, e.short, at), hist, map[string]any{"got": short(canon(v)), "err": errStr(err)})
-				}
+			// unset: the V1 APIs report ErrMissingExtension unless the schema declares a default (then they return
+			// it, and the differential clause above has already compared it with the runtime's answer); V2
+			// returns the default
+			switch {
+			case e.hasDefault && s.cls != cV2:
 			default:
-				want := e.xt.InterfaceOf(e.xt.Zero())
-				if err != nil || canon(v) != canon(want) {
-					x.fail(fmt.Sprintf("GetExtension/%s/%s/unset-extension-not-default%s", s.rt, e.short, at), hist, map[string]any{"got": short(canon(v)), "err": errStr(err), "want": short(canon(want))})
+				switch s.cls {
+				case cGogo:
+					if v != nil || !errors.Is(err, gogoproto.ErrMissingExtension) {
+						x.fail(fmt.Sprintf("GetExtension/%s/%s/unset-extension-not-reported-missing%s", s.rt, e.short, at), hist, map[string]any{"got": short(canon(v)), "err": errStr(err)})
+					}
+				case cV1:
+					if v != nil || !errors.Is(err, golangproto.ErrMissingExtension) {
+						x.fail(fmt.Sprintf("GetExtension/%s/%s/unset-extension-not-reported-missing%s", s.rt, e.short, at), hist, map[string]any{"got": short(canon(v)), "err": errStr(err)})
+					}
+				default:
+					want := e.xt.InterfaceOf(e.xt.Zero())
+					if err != nil || canon(v) != canon(want) {
+						x.fail(fmt.Sprintf("GetExtension/%s/%s/unset-extension-not-default%s", s.rt, e.short, at), hist, map[string]any{"got": short(canon(v)), "err": errStr(err), "want": short(canon(want))})
+					}
 				}
 			}
 		}
